@@ -17,9 +17,9 @@ from ..drivers_sessions import run_schedule
 
 PROP = "C04"
 INV = ("WriterExclusive", "LockFreeWhenIdle", "HandleClosedWhenIdle", "AckedPresent", "ReaderSeesOnlyComplete",
-       "WriterSeesAll", "NoDuplicate")
+       "WriterSeesAll", "NoDuplicate", "SessionsNeedTheFile")
 ACTIONS = ("Request", "Acquire", "Begin", "BodyPut", "FlushOne", "BodyDone", "RaiseInBody", "FlushDone", "RaiseInFlush",
-           "End", "RaiseInEnd", "Release")
+           "End", "RaiseInEnd", "Release", "CtorTest", "CtorAcquire", "CtorCreate", "CtorRelease")
 
 
 def mc_cfg(procs="P2", dev="DevNone", fair=True, maxsess=2):
@@ -61,13 +61,16 @@ def part_a(tier, seed, ev, rep):
 
 
 def part_b(tier, seed, ev, rep):
-    runs = [(8, 40, True), (6, 30, False)] if tier == "quick" else [(16, 300, True), (12, 200, True), (8, 400, False)]
+    # (processes, sessions each, injected failures, library created by the workers themselves - racing constructors)
+    runs = ([(8, 40, True, False), (6, 30, False, False)] + [(8, 4, False, True)] * 4 if tier == "quick" else
+            [(16, 300, True, False), (12, 200, True, False), (8, 400, False, False)] + [(12, 5, True, True)] * 20)
     traces = []
     wd = tlc.workdir("c04mp")
     try:
-        for i, (nproc, nsess, faults) in enumerate(runs):
-            evs = run_schedule(wd / f"run{i}", nproc, nsess, seed * 10 + i, faults=faults, timeout=300 if tier == "quick" else 1200)
-            traces.append({"tid": f"mp{i}-n{nproc}-s{nsess}", "ev": evs})
+        for i, (nproc, nsess, faults, fresh) in enumerate(runs):
+            evs = run_schedule(wd / f"run{i}", nproc, nsess, seed * 10 + i, faults=faults, fresh=fresh,
+                               timeout=300 if tier == "quick" else 1200)
+            traces.append({"tid": f"mp{i}-n{nproc}-s{nsess}" + ("-fresh" if fresh else ""), "ev": evs})
     finally:
         shutil.rmtree(wd, ignore_errors=True)
     verdicts, results = T.validate("SessionsTrace", traces, dict(spec="TraceSpec", invariants=("WriterExclusive",)),
@@ -127,6 +130,7 @@ def run(tier, seed, replay_path):
                     coverage=False, timeout=3000)
     expect_violation("MCSessions", mc_cfg("P2", "DevLeak", fair=False), ("LockFreeWhenIdle",), tag="c04dev")
     expect_violation("MCSessions", mc_cfg("P2", "DevStale", fair=False), ("ReaderSeesOnlyComplete",), tag="c04dev")
+    expect_violation("MCSessions", mc_cfg("P2", "DevToctou", fair=False), ("AckedPresent", "NoLostOrAltered"), tag="c04dev")
     apalache_inductive(ev, rep)
     part_a(tier, seed, ev, rep)
     part_b(tier, seed, ev, rep)
